@@ -20,6 +20,7 @@ import DSProofs.Lemmas.CpcCount
 import DSProofs.Lemmas.CpcUnionPerm
 import DSProofs.Lemmas.CpcLossless
 import DSProofs.Lemmas.CpcTablesOK
+import DSProofs.Lemmas.CpcImage
 import DSModel.Cpc.Wire
 import DSModel.Cpc.Input
 import DSModel.Cpc.Estimator
@@ -319,36 +320,49 @@ theorem cpc_compress_lossless_run (T : HipTables) (lgK : Nat) (rcs : List Nat) (
     (by rw [hl]; exact cpc_no_saturation T lgK rcs h hb)
   rwa [hl] at this
 
-/-! ### The serialized image (partial)
+/-! ### The serialized image
 
-`serializeCore` / `deserializeCore` (DSModel/Cpc/Wire.lean) add the preamble around `compress` / `uncompress`.
-The full statement `cpc_image_lossless_full` says that the image gives back the whole state including the two HIP
-registers.  It is FALSE for the current code: an empty image stores no registers and `deserialize` starts the
-rebuilt sketch with `kxp = 0` instead of `k` (finding `deserialized-empty-sketch-estimator-state-lost`, replayed on
-the implementation by the check; proposed fix in proposed_fixes/).  Proved: `cpc_image_lossless_full_false` (the
-witness) and the compress-level theorem above; the byte layout of the preamble (field order, little-endian words)
-is tied by correspondence only (model bytes == implementation bytes on every generated history) and by C09/C10. -/
+`serializeCore` / `deserializeCore` (DSModel/Cpc/Wire.lean) put the preamble around `compress` / `uncompress`
+(`genWire` = the wire constants generated from cpc_sketch.hpp; the two HIP registers travel as their 64-bit patterns).
+The full statement `cpc_image_lossless_full`: the image gives back the whole state (lg_k, C, table, window, offset,
+first interesting column, merged flag) and, for a non-merged sketch, both HIP registers.
+It is FALSE for the current code: an empty image stores no registers and `deserialize` starts the rebuilt sketch
+with `kxp = 0` instead of `k` (finding `deserialized-empty-sketch-estimator-state-lost`, replayed on the implementation
+by the check; proposed fix in proposed_fixes/).  `cpc_image_lossless_full_false` is that witness;
+`cpc_image_lossless_partial` proves the statement for every NON-EMPTY valid sketch. -/
 
-def genWire : WireConsts :=
-  { serialVersion := DSGen.cpc_SERIAL_VERSION, family := DSGen.cpc_FAMILY, flagCompressed := DSGen.cpc_FLAG_IS_COMPRESSED,
-    flagHip := DSGen.cpc_FLAG_HAS_HIP, flagTable := DSGen.cpc_FLAG_HAS_TABLE, flagWindow := DSGen.cpc_FLAG_HAS_WINDOW }
+/-- sizes that fit the 32/64-bit fields of the image (always true for lg_k ≤ 26) -/
+def SizesOK (s : Sketch) (hb : HipBits) : Prop :=
+  s.numCoupons < 256^4 ∧ hb.kxp < 256^8 ∧ hb.hip < 256^8 ∧ s.table.length < 256^4 ∧
+  (compress genComp s).tableWords.length < 256^4 ∧ (compress genComp s).windowWords.length < 256^4
 
 def cpc_image_lossless_full : Prop :=
   ∀ (seedHash : Nat) (s : Sketch) (xs : List Nat) (hb : HipBits) (ofBits : Nat → Float),
-    seedHash < 65536 → Inv s xs → (∀ x ∈ xs, x < 64 * 2^s.lgK) → s.lgK < 256 →
-    s.offset = determineCorrectOffset s.lgK s.numCoupons → s.merged = false →
-    ∃ s', deserializeCore genWire genComp seedHash (serializeCore genWire genComp seedHash s hb) ofBits = some (s', hb) ∧
-      sameContent s' s
+    seedHash < 65536 → Inv s xs → (∀ x ∈ xs, x < 64 * 2^s.lgK) →
+    s.offset = determineCorrectOffset s.lgK s.numCoupons → SizesOK s hb →
+    ∃ s', deserializeCore genWire genComp seedHash (serializeCore genWire genComp seedHash s hb) ofBits
+        = some (s', if s.merged then ⟨0, 0⟩ else hb) ∧ sameContent s' s
 
-/-- the image of a new (empty) sketch with `kxp = 16.0` comes back with `kxp = 0` -/
+/-- the image of a new (empty, not merged) sketch with `kxp = 16.0` comes back with `kxp = 0` -/
 theorem cpc_image_lossless_full_false : ¬ cpc_image_lossless_full := by
   intro h
   obtain ⟨s', h1, _⟩ := h 37836 (fresh 4) [] ⟨0x4030000000000000, 0⟩ (fun _ => 0.0) (by decide) (inv_fresh 4) (by simp)
-    (by decide) (by decide) rfl
+    rfl (by unfold SizesOK; decide +kernel)
   have h2 : (deserializeCore genWire genComp 37836 (serializeCore genWire genComp 37836 (fresh 4) ⟨0x4030000000000000, 0⟩)
       (fun _ => 0.0)).map Prod.snd = some ⟨0, 0⟩ := by decide +kernel
   rw [h1] at h2
-  simp at h2
+  simp [fresh] at h2
+
+/-- **the proved part**: every NON-EMPTY valid sketch is reproduced by its image (with the generated tables) -/
+theorem cpc_image_lossless_partial (seedHash : Nat) (s : Sketch) (xs : List Nat) (hb : HipBits) (ofBits : Nat → Float)
+    (hsh : seedHash < 65536) (h : Inv s xs) (hv : ∀ x ∈ xs, x < 64 * 2^s.lgK)
+    (hoff : s.offset = determineCorrectOffset s.lgK s.numCoupons) (hsz : SizesOK s hb) (hne : s.numCoupons ≠ 0) :
+    ∃ s', deserializeCore genWire genComp seedHash (serializeCore genWire genComp seedHash s hb) ofBits
+        = some (s', if s.merged then ⟨0, 0⟩ else hb) ∧ sameContent s' s := by
+  obtain ⟨h1, h2, h3, h4, h5, h6⟩ := hsz
+  obtain ⟨s', he, e1, e2, e3, e4, e5, e6, e7⟩ :=
+    image_roundtrip genComp gen_tables_ok seedHash s xs hb ofBits hsh h hv hoff hne h1 h2 h3 h4 h5 h6
+  exact ⟨s', he, e1, e2, e3, e4, e5, e6, e7⟩
 
 /-! Non-vacuity: a concrete stream on lg_k = 4 that passes through SPARSE → HYBRID (promotion at C = 2) with
 duplicates, coupons below / inside / above the window. -/
@@ -388,5 +402,22 @@ example : (∀ rc ∈ exSliding, rc < 64 * 2^4) ∧ determineFlavor 4 (run exT 4
 example : uncompress genComp (compress genComp (run exT 4 exSliding)) 4 (run exT 4 exSliding).numCoupons
     = ((run exT 4 exSliding).table, (run exT 4 exSliding).window) :=
   cpc_compress_lossless_run exT 4 exSliding (by decide +kernel) (by decide +kernel)
+
+/-! Non-vacuity for the image theorem: a SPARSE sketch (one coupon, fed twice) with arbitrary register patterns meets
+`SizesOK` and the other hypotheses (`Inv` and validity by `valid_of_run`). -/
+def exSparse : List Nat := [5 * 64 + 0, 5 * 64 + 0]
+example : SizesOK (run exT 4 exSparse) ⟨0x4030000000000000, 0x3ff0000000000000⟩ := by
+  have hf : determineFlavor (run exT 4 exSparse).lgK (run exT 4 exSparse).numCoupons = .sparse := by decide +kernel
+  refine ⟨by decide +kernel, by decide, by decide, by decide +kernel, ?_, ?_⟩
+  · unfold compress
+    simp only [hf]
+    unfold compressPairs
+    exact Nat.lt_of_le_of_lt (length_packWords_le _) (by decide +kernel)
+  · unfold compress
+    simp only [hf]
+    decide
+example : (run exT 4 exSparse).numCoupons ≠ 0 ∧ (run exT 4 exSparse).merged = false ∧
+    (run exT 4 exSparse).offset = determineCorrectOffset (run exT 4 exSparse).lgK (run exT 4 exSparse).numCoupons := by
+  decide +kernel
 
 end DS.Cpc
